@@ -213,6 +213,7 @@ def _check_binary(Bitset, mon, va, na, vb, nb, acc):
     mon.same("or", a | b, m_binop("or", ma, mb), case)
     mon.same("xor", a ^ b, m_binop("xor", ma, mb), case)
     mon.eq("eq", a == b, (va == vb and na == nb), case)
+    mon.eq("operands-unchanged", (a.value, len(a), b.value, len(b)), (va, na, vb, nb), case)
 
 
 # ----------------------------------------------------------------------------- shard
